@@ -161,6 +161,13 @@ func cmdLocalsTable(args []string) int {
 		if len(cells) > 0 {
 			out[fnTableKey(fn)] = cells
 		}
+		if n := countLoops(fn); n > 0 {
+			var ls []localCell
+			for i := 0; i < n; i++ {
+				ls = append(ls, localCell{"loop", ""})
+			}
+			out[fnTableKey(fn)+"#loops"] = ls
+		}
 		if len(fn.FreeVars) > 0 {
 			var fv []localCell
 			for _, v := range fn.FreeVars {
@@ -180,4 +187,31 @@ func cmdLocalsTable(args []string) int {
 	}
 	fmt.Printf("%d functions, written to %s\n", len(out), dst)
 	return 0
+}
+
+// countLoops: number of natural-loop headers of the function (targets of back edges).
+func countLoops(fn *ssa.Function) int {
+	hs := map[*ssa.BasicBlock]bool{}
+	for _, b := range fn.Blocks {
+		for _, sc := range b.Succs {
+			if sc.Dominates(b) {
+				hs[sc] = true
+			}
+		}
+	}
+	return len(hs)
+}
+
+// loopStructureChanged: the function had a different number of loops in the unchanged tree. Loop contracts are keyed by
+// ordinal, so they cannot be attached with certainty any more.
+func loopStructureChanged(fn *ssa.Function) (was, now int, changed bool) {
+	if localsTable == nil {
+		return 0, 0, false
+	}
+	if _, known := localsTable[fnTableKey(fn)]; !known {
+		return 0, 0, false
+	}
+	was = len(localsTable[fnTableKey(fn)+"#loops"])
+	now = countLoops(fn)
+	return was, now, was != now
 }
